@@ -438,7 +438,7 @@ def run(chk, opts):
         depth += 1
         if not progressed:
             break
-    noff = int(opts.get("offruns", 0)) or (12000 if thorough else 1500)
+    noff = int(opts.get("offruns", 0)) or (12000 if thorough else 1000)
     for c in (offspecs if noff >= len(offspecs) else rng.sample(offspecs, noff)):
         picked.append((c, draw_run(c["n"])))
     for k, (c, rc) in enumerate(picked):
